@@ -21,7 +21,7 @@ func checkC20(c *Ctx) {
 	c.Explanation = `The release tagger (tools/cmd, loaded from the tools module of the workspace):
 R20.1 the dry-run flag is defined with default true;
 R20.2 the flag reaches the decision: it is bound (BindPFlag) on the viper instance from which NewTagger unmarshals the Tagger, under the key of Tagger.DryRun's mapstructure tag;
-R20.3 mutation is gated: every call in tools/cmd to a mutating go-git API (CreateTag, DeleteTag, reference/branch/remote/worktree mutators) sits in createTag, and createTag's paths are enumerated: nothing mutating is reachable (directly or through its loop) unless DryRun was tested false first; Tag reaches createTag only after 'requested.GreaterThan(previous)' held (otherwise ErrNoNewVersion) and the work tree's Status().IsClean() held (otherwise an error), with no error swallowed;
+R20.3 mutation is gated: every call in tools/cmd to a mutating go-git API (CreateTag, DeleteTag, reference/branch/remote/worktree mutators), wherever it sits, is dominated by three facts - DryRun tested false, the requested version strictly greater than the largest existing tag of its major (otherwise ErrNoNewVersion), the work tree's Status().IsClean() true - each established on every enumerated path of the enclosing function (or loop body) through the call, or else at every call site of that function (bounded); no error is swallowed before tagging;
 R20.4 largest existing tag: the per-tag callback updates the maximum only under version.GreaterThan(max) && version.Major() == major, skips names with fewer than three dot-separated parts, takes the name of a lightweight tag from the reference (ErrObjectNotFound) and of an annotated tag from the tag object, and returns other errors;
 R20.5 what is tagged: exactly the version and its major prefix (text before the first dot), both at repo.Head()'s hash;
 R20.6 exit status: ErrNoNewVersion maps to the distinct non-zero code, any other error to 1.`
